@@ -257,7 +257,54 @@ func (in *Interp) fmtArg(verb byte, plus bool, a Value) *Term {
 	case TimeV:
 		return ts.App("fmttime", StrSort, x.T)
 	}
-	return ts.Str("<" + types.TypeString(v.T, func(p *types.Package) string { return p.Name() }) + ">")
+	// %v of slices / arrays / structs of printable things, as fmt prints them
+	if verb == 'v' || verb == 'd' || verb == 's' {
+		switch u := v.T.Underlying().(type) {
+		case *types.Slice:
+			if x, ok := v.V.(SliceV); ok && x.Blob == nil {
+				parts := []*Term{ts.Str("[")}
+				for i, e := range x.A {
+					if i > 0 {
+						parts = append(parts, ts.Str(" "))
+					}
+					parts = append(parts, in.fmtArg(verb, plus, Iface{T: u.Elem(), V: e}))
+				}
+				return ts.SConcat(append(parts, ts.Str("]"))...)
+			}
+		case *types.Array:
+			if x, ok := v.V.(Array); ok {
+				parts := []*Term{ts.Str("[")}
+				for i, e := range x {
+					if i > 0 {
+						parts = append(parts, ts.Str(" "))
+					}
+					parts = append(parts, in.fmtArg(verb, plus, Iface{T: u.Elem(), V: e}))
+				}
+				return ts.SConcat(append(parts, ts.Str("]"))...)
+			}
+		case *types.Struct:
+			if x, ok := v.V.(Struct); ok && len(x) == u.NumFields() {
+				parts := []*Term{ts.Str("{")}
+				for i, e := range x {
+					if i > 0 {
+						parts = append(parts, ts.Str(" "))
+					}
+					if plus {
+						parts = append(parts, ts.Str(u.Field(i).Name()+":"))
+					}
+					fv := e
+					if _, isIface := u.Field(i).Type().Underlying().(*types.Interface); !isIface {
+						fv = Iface{T: u.Field(i).Type(), V: e}
+					}
+					parts = append(parts, in.fmtArg(verb, plus, fv))
+				}
+				return ts.SConcat(append(parts, ts.Str("}"))...)
+			}
+		}
+	}
+	// anything else (pointers, maps, channels, funcs): some string we know nothing about - never a made-up constant
+	in.opq++
+	return ts.FreshSym(fmt.Sprintf("fmt!%d", in.opq), StrSort)
 }
 
 func (in *Interp) sprintf(format *Term, args []Value) *Term {
@@ -287,12 +334,14 @@ func (in *Interp) sprintf(format *Term, args []Value) *Term {
 			break
 		}
 		plus := false
+		flagStart := i
 		for i < len(f) && strings.IndexByte("+-# 0123456789.*", f[i]) >= 0 {
 			if f[i] == '+' {
 				plus = true
 			}
 			i++
 		}
+		flags := f[flagStart:i]
 		if i >= len(f) {
 			break
 		}
@@ -306,11 +355,53 @@ func (in *Interp) sprintf(format *Term, args []Value) *Term {
 			continue
 		}
 		flush()
+		if flags != "" && flags != "+" && !strings.Contains(flags, "*") {
+			// width / precision / padding flags: exact for concrete basic operands, an uninterpreted string otherwise
+			// (never silently the unpadded text)
+			parts = append(parts, in.fmtFlagged("%"+flags+string(verb), args[ai]))
+			ai++
+			continue
+		}
 		parts = append(parts, in.fmtArg(verb, plus, args[ai]))
 		ai++
 	}
 	flush()
 	return ts.SConcat(parts...)
+}
+
+func (in *Interp) fmtFlagged(spec string, a Value) *Term {
+	ts := in.ts
+	if v, ok := a.(Iface); ok && v.T != nil {
+		switch x := v.V.(type) {
+		case *Term:
+			if c := in.pinnedConst(x); c != nil {
+				x = c
+			}
+			if x.IsConst() {
+				switch x.sort.K {
+				case SStr:
+					return ts.Str(fmt.Sprintf(spec, x.s))
+				case SBool:
+					return ts.Str(fmt.Sprintf(spec, x.BoolVal()))
+				case SBV:
+					if _, signed, _ := isIntType(v.T); signed {
+						return ts.Str(fmt.Sprintf(spec, x.SVal()))
+					}
+					return ts.Str(fmt.Sprintf(spec, x.u))
+				}
+			}
+			in.injUFs["fmt:"+spec] = false
+			return ts.App("fmt:"+spec, StrSort, x)
+		case float64:
+			return ts.Str(fmt.Sprintf(spec, x))
+		case SliceV:
+			if b, ok := concBytes(x); ok {
+				return ts.Str(fmt.Sprintf(spec, b))
+			}
+		}
+	}
+	in.opq++
+	return ts.FreshSym(fmt.Sprintf("fmt!%d", in.opq), StrSort)
 }
 
 func (in *Interp) sprint(args []Value, ln bool) *Term {
@@ -774,6 +865,7 @@ func registerStd(P *Program) {
 	r("encoding/hex.EncodeToString", func(in *Interp, caller *frame, fn *ssa.Function, args []Value) Value {
 		s := args[0].(SliceV)
 		if b, ok := concBytes(s); ok {
+			in.noteConcrete("hex", string(b), hex.EncodeToString(b))
 			return in.ts.Str(hex.EncodeToString(b))
 		}
 		in.injUFs["hex"] = true
@@ -796,6 +888,7 @@ func registerStd(P *Program) {
 	r("(*encoding/base64.Encoding).EncodeToString", func(in *Interp, caller *frame, fn *ssa.Function, args []Value) Value {
 		s := args[1].(SliceV)
 		if b, ok := concBytes(s); ok {
+			in.noteConcrete("b64", string(b), base64.StdEncoding.EncodeToString(b))
 			return in.ts.Str(base64.StdEncoding.EncodeToString(b))
 		}
 		in.injUFs["b64"] = true
